@@ -8,7 +8,9 @@
 (*     Call("inplace", dt)   point_collocation(sampling_function(f), mesh, out=<array of type dt>) *)
 (*     Call("oop", dt)       point_collocation(sampling_function(f, out_dtype=dt), mesh)           *)
 (*     Call("element", dt)   space_dt.element(f)                                                   *)
-(*     Mutate                the caller overwrites the object returned by the previous call        *)
+(*     Mutate(how)           the caller overwrites the object returned by the previous call        *)
+(* Besides the values, the GRID of the space (coordinate vectors, mesh, cell boundaries) is part   *)
+(* of the frame: it never changes, and an earlier result is not changed by a later sampling.       *)
 (* Invariant from the statement: EVERY call yields exactly the callable's  *)
 (* values in its own value type, whatever was called (or overwritten)      *)
 (* before; the implementation-shaped model (VectorizeImpl) agrees outside  *)
@@ -17,25 +19,28 @@
 EXTENDS VectorizeImpl, TLC
 
 CONSTANTS Objects,     \* set of [fn, cvs, conv, pyint1] function objects
-          MaxLen, DTs, Kinds
+          MaxLen, DTs, Kinds,
+          Hows         \* ways of overwriting a returned object: e *= c | e[:] = c | e.asarray()[...] = c | np.negative(e, out=e)
 VARIABLES obj, cache, hist, ires
 vars == <<obj, cache, hist, ires>>
 
 Init == obj \in Objects /\ cache = "none" /\ hist = <<>> /\ ires = <<>>
 Vals == SampleFn(obj.fn, obj.cvs)
+\* a complex-valued callable is sampled into complex value types only (anything else is outside the statement)
+Admissible(dt) == dt \in {"c64", "c128"} \/ \A t \in 1..Len(Vals) : Vals[t][2] = QZero
 Call(kind, dt) ==
-  /\ Len(hist) < MaxLen
+  /\ Len(hist) < MaxLen /\ Admissible(dt)
   /\ LET r == ImplCall(obj.conv, cache, dt, Vals, obj.pyint1)
      IN  /\ hist' = Append(hist, [kind |-> kind, dt |-> dt, exp |-> ExpectCall(obj.fn, obj.cvs, dt),
                                   def |-> DefinedCall(obj.fn, obj.cvs, dt)])
          /\ ires' = r.res /\ cache' = r.cache
   /\ UNCHANGED obj
 \* results are fresh objects owned by the caller: overwriting one changes nothing (frame condition)
-Mutate ==
+Mutate(how) ==
   /\ Len(hist) \in 1..(MaxLen - 1) /\ hist[Len(hist)].kind # "mutate"
-  /\ hist' = Append(hist, [kind |-> "mutate", dt |-> hist[Len(hist)].dt, exp |-> <<>>, def |-> <<>>])
+  /\ hist' = Append(hist, [kind |-> "mutate", dt |-> hist[Len(hist)].dt, how |-> how, exp |-> <<>>, def |-> <<>>])
   /\ UNCHANGED <<obj, cache, ires>>
-Next == Mutate \/ \E k \in Kinds, dt \in DTs : Call(k, dt)
+Next == (\E h \in Hows : Mutate(h)) \/ \E k \in Kinds, dt \in DTs : Call(k, dt)
 Spec == Init /\ [][Next]_vars
 
 \* the statement: the expectation of a call is a function of (callable, grid, value type) alone
